@@ -15,7 +15,10 @@ use zkabacus_crypto as za;
 
 pub struct C02;
 
-pub const VARIANTS: [&str; 33] = [
+pub const VARIANTS: [&str; 36] = [
+    "compensating-shift-customer",
+    "compensating-shift-merchant",
+    "compensating-shift-lock",
     "close-merchant-balance-mismatch",
     "balance-just-above-2^63",
     "invalid-subproof-revlock",
@@ -407,7 +410,7 @@ pub fn run_case(o: &mut Outcome, case: &Value) {
     if !adaptive {
         let d = pay_draft(m, &h, &token, &knobs, &mut s);
         let shown_b = refc::scb(&shown).to_vec();
-        if !variant.starts_with("invalid-subproof") && true_statement(&rc, &h, &shown, present_amount) && token == rc.token && knobs.cust_sig_of.is_none() && knobs.cust_digits_msg.is_none() {
+        if !variant.starts_with("invalid-subproof") && !variant.starts_with("compensating-shift") && true_statement(&rc, &h, &shown, present_amount) && token == rc.token && knobs.cust_sig_of.is_none() && knobs.cust_digits_msg.is_none() {
             o.bump("probe.degenerate_variant_skipped");
             return;
         }
@@ -428,6 +431,21 @@ pub fn run_case(o: &mut Outcome, case: &Value) {
                     mm[3] += thousand;
                     ov.g1.push((format!("{}.commitment", pfx), refc::commit_g1(&m.pk.g1, &m.pk.y1s, &raw.bf, &mm)));
                 }
+                "compensating-shift-customer" | "compensating-shift-merchant" | "compensating-shift-lock" => {
+                    // state commits to value - delta, close state to value + delta in one slot;
+                    // responses of the true statement: the two Schnorr errors cancel in a sum
+                    let slot = match variant.as_str() {
+                        "compensating-shift-customer" => 3,
+                        "compensating-shift-merchant" => 4,
+                        _ => 2,
+                    };
+                    let mut ms = d.st.m.clone();
+                    let mut mc = d.cl.m.clone();
+                    ms[slot] -= thousand;
+                    mc[slot] += thousand;
+                    ov.g1.push(("state_proof.commitment_proof.commitment".into(), refc::commit_g1(&m.pk.g1, &m.pk.y1s, &d.st.bf, &ms)));
+                    ov.g1.push(("close_state_proof.commitment_proof.commitment".into(), refc::commit_g1(&m.pk.g1, &m.pk.y1s, &d.cl.bf, &mc)));
+                }
                 "invalid-subproof-token" => {
                     let mut mm = d.token.m.clone();
                     mm[3] += thousand;
@@ -437,12 +455,12 @@ pub fn run_case(o: &mut Outcome, case: &Value) {
             }
             ov
         };
-        let invalid_subproof = variant.starts_with("invalid-subproof");
+        let invalid_subproof = variant.starts_with("invalid-subproof") || variant.starts_with("compensating-shift");
         let draft = assemble_pay(&template, &d, None, &mk_ov(&d));
         let mut build = |c: &Scalar| assemble_pay(&template, &d, Some(c), &mk_ov(&d));
         let p = attack_pay(m, present_amount, &shown_b, &ctx, &draft, &mut build, seed, o);
         if let (true, Some(_)) = (invalid_subproof, &p.accepted) {
-            o.violate("invalid-subproof-accepted", &site, format!("a pay proof whose {} sub-proof does not satisfy its own Schnorr equation was accepted", &variant["invalid-subproof-".len()..]));
+            o.violate("invalid-subproof-accepted", &site, format!("a pay proof whose sub-proof(s) do not satisfy their own Schnorr equation was accepted (variant {})", variant));
             return;
         }
         if let Some((u, cs)) = p.accepted {
